@@ -2,9 +2,13 @@
 ID = "C47"
 LEAN_MODULES = ["GoaktVerif.Props.C47"]
 THEOREMS = [
-    "GoaktVerif.C47.C47_refuted",
+    "GoaktVerif.C47.C47_holds",
     "GoaktVerif.C47.semInv_reach",
-    "GoaktVerif.C47.C47_atomic_partial",
+    "GoaktVerif.C47.pcStep_legal",
+    "GoaktVerif.C47.clauseClose_holds",
+    "GoaktVerif.C47.C47_residual",
+    "GoaktVerif.C47.atomic_acquire_eq",
+    "GoaktVerif.C47.atomic_finish_eq",
     "GoaktVerif.C47.rw_rotate1",
     "GoaktVerif.C47.rw_advance",
     "GoaktVerif.C47.rw_bump",
@@ -16,12 +20,29 @@ THEOREMS = [
     "GoaktVerif.C47.acquire_legal",
     "GoaktVerif.C47.observe_state",
     "GoaktVerif.C47.acquire_probes",
-    "GoaktVerif.C47.C47_partial",
+    "GoaktVerif.C47.C47_call_level",
 ]
-INPKG = ["breaker/zz_verif_c47.go"]
+import os as _os
+
+
+def _hooks():
+    """the H/C operations issue the NEXT CALL a preempted caller would make; which function that is
+    depends on the code: guarded openToHalfOpen()/halfOpenToClosed() (after fix 42b281d) or the old
+    toHalfOpen()/toClosed().  Probe the current source so that a regression still builds and is
+    caught with a concrete input instead of a build failure."""
+    repo = _os.environ.get("VERIF_REPO", "/repo")
+    try:
+        src = open(_os.path.join(repo, "breaker", "breaker.go")).read()
+    except OSError:
+        src = ""
+    legacy = "openToHalfOpen()" not in src and "func (b *CircuitBreaker) toHalfOpen()" in src
+    return "breaker/zz_verif_c47_legacy.go" if legacy else "breaker/zz_verif_c47_guarded.go"
+
+
+INPKG = ["breaker/zz_verif_c47.go", _hooks()]
 MANIFEST = {
-    "level_text": "The full statement (atomic-level interleaving model of tryAcquire/record as the code runs them: state and openUntil read without b.mu, transitionTo not re-validating the source state; any number of threads, every schedule) is REFUTED with a kernel-checked witness schedule (C47_refuted): a caller that read `Open && now >= openUntil` runs toHalfOpen() after another probe re-opened the breaker, so it leaves Open before openUntil (finding C47-F1, replayed on the real code; also Open->Closed by a stale toClosed()). Proved (C47_partial): (a) at the atomic level, for every schedule: half-open tokens = threads holding one <= halfOpenMaxCalls, record's evaluation opens exactly when total >= minRequests and fail*q >= p*total on the post-advance window, a caller that finds Open and now < openUntil is rejected without effect; (b) at the call level (each tryAcquire and each record+release indivisible, callers overlapping arbitrarily, any clock steps, any history length) the model of breaker.go + bucket.go (ring buffer with cursor, advance, hard reset, totals; semaphore; transitions; Metrics) refines, answer by answer, a textbook spec machine over a queue-shaped rolling window (crun_refines; ring = queue by rw_rotate1/rw_advance/rw_bump); (c) the spec machine moves only along Closed->Open, HalfOpen->Open, HalfOpen->Closed and Open->HalfOpen when openUntil <= now, rejects everything while Open before openUntil, opens/closes exactly under the stated window conditions (observe_state) and keeps probes <= halfOpenMaxCalls. Tie: the real CircuitBreaker with WithClock, callers as goroutines parked inside their protected function (deterministic overlap), compared with the model after EVERY operation on state, openUntil, tokens, cursor, lastUpdate, lastFailure/lastSuccess and every bucket, including the sanitized options; the spec machine is evaluated on the implementation's observations.",
-    "level_note": "partial: false at the atomic level (C47-F1, open; proposed fix fixes/C47-stale-transition.diff). The differential exercises the code at call granularity only (interleavings inside tryAcquire/record are not schedulable without source instrumentation); the two witness cases replay the race through an in-package hook that issues the stale toHalfOpen()/toClosed() continuation, and a goroutine stress run on the unmodified package observed it 961 times in 1.1e6 rounds. Float threshold: rates are dyadic k/2^m (m<=6), counts < 2^20, for which the float comparison equals the rational test (TRUSTED). Execute's fallback plumbing, error wrapping and Validate() are outside the model; Sanitize() and newBuckets' bucket width are inside it.",
+    "level_text": "C47_holds (kernel-checked, atomic-level interleaving model of the code after fix 42b281d: one step per shared-memory access — the unlocked State() read, openToHalfOpen(), halfOpenToClosed(), toOpen(), buckets.add and the semaphore select each as one critical section; ANY options, ANY number of threads, EVERY schedule, any clock behaviour): every state change is an edge of the state machine (Open is left only for HalfOpen and only when openUntil <= now; openUntil does not move while Open; HalfOpen->Closed only by a record that found enough samples below the threshold), half-open tokens in use = threads holding one <= halfOpenMaxCalls, record's evaluation opens exactly when total >= minRequests and fail*q >= p*total on the post-advance window, a caller whose locked check finds Open and now < openUntil is rejected without effect. atomic_acquire_eq/atomic_finish_eq: one undisturbed thread's atomic steps are exactly the call-level tryAcquire / record+release. C47_call_level: at the call level (callers overlapping arbitrarily, any history length) the model of breaker.go + bucket.go (ring buffer, cursor, advance, hard reset, totals, semaphore, transitions, Metrics, Sanitize) refines answer by answer a textbook spec machine over a queue-shaped rolling window (crun_refines; ring = queue by rw_rotate1/rw_advance/rw_bump) whose edges, reject rule, open/close conditions (observe_state) and probe bound are proved. Tie: the real CircuitBreaker with WithClock, callers as goroutines parked inside their protected function (deterministic overlap), compared with the model after EVERY operation on state, openUntil, tokens, cursor, lastUpdate, lastFailure/lastSuccess, every bucket and the sanitized options; the spec machine is evaluated on the implementation's observations; the former race witnesses (fixed finding C47-F1) are replayed on every run.",
+    "level_note": "Stated limit, proved as C47_residual: the admission decision is taken on an unlocked read, so a caller that read HalfOpen can still win a half-open token right after a concurrent probe re-opened the breaker (bounded by halfOpenMaxCalls; changes no state) — `rejects every call while open` holds for callers whose check happens while Open, not for that one. The differential exercises the real code at call granularity; steps inside tryAcquire/record are reached only through the H/C hooks, which issue the next call a preempted caller would make (no source instrumentation). Float threshold: rates dyadic k/2^m (m<=6), counts < 2^20, for which the float comparison equals the rational test (TRUSTED). Execute's fallback plumbing, error values and Validate() are outside the model.",
     "technique": "Lean 4 simulation proof against a spec state machine + small-step interleaving model with a refutation witness + model/implementation differential",
 }
 TRUSTED = [
@@ -29,8 +50,8 @@ TRUSTED = [
     "(a nonzero difference |fail/total - k/2^m| is >= 2^-26, far above half an ulp, and correctly-rounded division is monotone); the model uses the exact rational test",
     "sync/atomic and sync.Mutex are sequentially consistent; the atomic-level model interleaves at each atomic load/store, critical section and channel operation",
     "int64 nanosecond arithmetic does not overflow (model uses unbounded Int); uint64 counters do not wrap",
-    "the H / C witness operations are issued by an in-package hook calling toHalfOpen()/toClosed() at the point where the preempted goroutine would (no lock is held there); "
-    "a goroutine stress run on the unmodified package observed the same transition 961 times in 1.1e6 rounds",
+    "the H / C operations are issued by an in-package hook calling the next function a preempted caller would call (openToHalfOpen()/halfOpenToClosed(); "
+    "toHalfOpen()/toClosed() on pre-42b281d code, selected by a probe of breaker.go); before the fix a goroutine stress run observed the stale transition 961 times in 1.1e6 rounds, after it 0 times in 6e5",
 ]
 RULE = ("options: dyadic rates p/q (q | 64) incl. 0, 1 and invalid ones, minRequests 1..6 (and invalid), small openTimeout / window / buckets so that "
         "bucket boundaries, stale windows and open timeouts are all hit; histories of begin/finish with unique caller ids (sequential and overlapping), "
@@ -95,10 +116,12 @@ def _history(rng, cfg, n, overlap):
             ops.append(f"e{i}{o}")
         elif r < 0.90:
             ops.append(f"t{rng.choice(ticks)}")
-        elif r < 0.96:
+        elif r < 0.94:
             ops.append("m")
-        else:
+        elif r < 0.96:
             ops.append("x")
+        else:
+            ops.append("H")  # a preempted caller's openToHalfOpen(): must act only on Open past its deadline
     for i in live:
         if rng.random() < 0.7:
             ops.append(f"e{i}{rng.choice('sf')}")
@@ -270,10 +293,7 @@ def oracle(case, impl, judge):
 
 
 def classify(case, impl, why):
-    ops = case.split()[8:]
-    if why and "stale-transition" in why and ("H" in ops or "C" in ops):
-        return "C47-F1"
-    return None
+    return None  # C47-F1 is fixed (42b281d); a stale transition is a violation again
 
 
 def shrink(case):
